@@ -31,12 +31,13 @@ TRUSTED = [
     "C20: 'pid state' is what the module's own probe sees after the faulted call (one-shot status slot on BSD/macOS; kill(pid,0) / /proc/<pid>/psinfo on Solaris/AIX); only the probe primitives follow it",
 ]
 ASSUMPTIONS = [
-    "single-fault sweep: exactly one native call of the method raises (sticky only for the Windows ERROR_PARTIAL_COPY retry loop); records hold a distinct value in every slot",
+    "single-fault sweep: exactly one native call of the method raises (sticky only for the Windows ERROR_PARTIAL_COPY retry loop); two-fault sequences: a second, later call raises after the method went on; records hold a distinct value in every slot",
+    "front-end name(): ASCII names only (len(os.fsencode(name)) = number of characters); front-end cases run over a scripted platform object (_proc) behind the real psutil.Process",
     "Python-level os.path.exists/islink/isfile/os.access never raise and are not faulted; subprocess-based helpers (pfiles, procfiles, swap -l, lsdev, entstat) are outside the model",
 ]
 MANIFEST = {
-    "level_text": "Machine-checked Lean 4 proofs over a model of the five non-Linux platform modules and the front end's platform-conditional post-processing: C20_error_contract (for every platform module, every errno in {ESRCH, ENOENT, EPERM, EACCES, EIO, EINVAL}, every winerror, every pid and pid state, the decorator built from the translator's except-clause table produces exactly the cell of the contract table), instantiated for every decorated method of the generated per-platform method lists (C20_error_contract_methods), C20_all_methods_wrapped (every undecorated method justified one by one, helpers only reachable from decorated methods), C20_inner_handlers_transcribed, C20_method_faults_within_spec_partial (every native call of every method × error × pid state: outcome within the specification's allowed set, by decide over the generated traces; partial: two Windows call sites are known findings, counterexamples proved), C20_slot_maps_match_native, C20_slots_match, C20_ntuple_types, C20_win_pmem_layout (decide over generated tables), C20_api_names (documented ⊆ exposed per platform), C20_mac_padding, C20_broadcast_takes_effect (post-processing takes effect; counterexample for the pre-fix front end). Tie: translator (except clauses, decorators, slot maps, feeds, C comments, docs) + a differential run of the REAL platform modules and front end under platform emulation over a scripted native layer (full single-fault sweep).",
-    "level_note": "Trusted: Lean kernel + {propext, Classical.choice, Quot.sound}; the translator; the emulation layer (stub natives, scripted os); CPython's errno→exception map. Not executed: the native C layers of the other OSes. Partial: pid-state semantics is the module's own probe; single-fault sweep only (no two-fault sequences are generated).",
+    "level_text": "Machine-checked Lean 4 proofs over a model of the five non-Linux platform modules and the front end's platform-conditional post-processing: C20_error_contract (for every platform module, every errno in {ESRCH, ENOENT, EPERM, EACCES, EIO, EINVAL}, every winerror, every pid and pid state, the decorator built from the translator's except-clause table produces exactly the cell of the contract table), instantiated for every decorated method of the generated per-platform method lists (C20_error_contract_methods), C20_all_methods_wrapped (every undecorated method justified one by one, helpers only reachable from decorated methods), C20_inner_handlers_transcribed, C20_method_faults_within_spec (every native call of every method × error × pid state: outcome within the specification's allowed set, by decide over the generated traces; full strength for the configuration with the two Windows repairs fixes/C20-win-ppid-wrap and fixes/C20-win-memory-maps-wrap) and C20_method_faults_within_spec_current (the same for the tree as the translator reads it: a call site is excluded only while its repair is absent from the source — then it is a known finding with proved counterexamples; C20_method_faults_full_when_repaired), C20_two_faults_within_spec (two-fault sequences: for every generated row of first faults after which a method goes on — alternative path after an inner handler, or re-run by the partial-copy retry — every later native call × second error × pid state is within the specification; any first error), C20_two_faults_first_ends, C20_slot_maps_match_native, C20_slots_match, C20_all_record_reads_named (every read of a native one-shot record on any path is a named-slot read), C20_fallback_slots_match (the slot reads on except-handler paths are exactly the documented fall-backs), C20_ntuple_types, C20_win_pmem_layout (decide over generated tables), C20_api_names (documented ⊆ exposed per platform), C20_mac_padding, C20_broadcast_takes_effect (post-processing takes effect; counterexample for the pre-fix front end), C20_front_branches_classified (every platform-conditional branch inside a function or class of the front end is on a classified list) with C20_front_ppid / _name / _username / _pid_exists / _affinity_all_cpus / _disk_io_kwargs for the ones that transform a value. Tie: translator (except clauses, decorators, slot maps, feeds, record reads, fall-back reads, single- and two-fault traces, front-end branches, C comments, docs) + a differential run of the REAL platform modules and front end under platform emulation over a scripted native layer (full single-fault sweep; two-fault sequences: sampled at the quick tier, the whole domain at the thorough tier).",
+    "level_note": "Trusted: Lean kernel + {propext, Classical.choice, Quot.sound}; the translator; the emulation layer (stub natives, scripted os); CPython's errno→exception map. Not executed: the native C layers of the other OSes. Partial: pid-state semantics is the module's own probe; two-fault sequences start from first faults after which the method still returns (a second fault inside a decorator's own probe is not generated); the two Windows repairs are proposed patches, on the unrepaired tree the two call sites stay known findings; front-end branches _get_ident (Windows fast create_time), __eq__ (Open/NetBSD zombies), _send_signal (OpenBSD) and send_signal (non-POSIX) are listed but not modelled.",
     "technique": "Lean 4 case analysis + decide over translator-generated tables; platform emulation with scripted native layer for the differential correspondence",
     "design_ref": "DESIGN.md §5 C20",
 }
@@ -952,8 +953,12 @@ def correspond(ctx, res):
     emus = _emus(ctx.snap)
     res.rule = ("exhaustive single-fault sweep: platform identity × public Process method × pid ∈ {42, 0} × each native "
                 "call of the no-fault trace × errno ∈ {ESRCH, ENOENT, EPERM, EACCES, EIO, EINVAL} (× winerror ∈ {None, 0, 5, "
-                "1314, 299, 87} on Windows) × pid state ∈ {gone, zombie, alive} (× pid 0 listed or not); plus tuple "
-                "contents of every method, net_if_addrs post-processing (all MAC lengths, all prefix lengths), "
+                "1314, 299, 87} on Windows) × pid state ∈ {gone, zombie, alive} (× pid 0 listed or not); two-fault "
+                "sequences: every single-fault case after which the method still returned × every later native call of "
+                "that run × every swept error (quick: all of Solaris + a sample of 1200 of Windows; thorough: all); plus tuple "
+                "contents of every method incl. every fall-back path, the front end's platform-conditional branches "
+                "(ppid/name caching, username, pid_exists(0), cpu_affinity([]), disk_io_counters), net_if_addrs "
+                "post-processing (all MAC lengths, all prefix lengths), "
                 "documented API per platform; non-trivial = a fault case or a value case with slot rows; "
                 "distinct = distinct case descriptors")
     drv_lines = 0
@@ -1070,7 +1075,8 @@ def correspond(ctx, res):
         res.case(("api", ident), nontrivial=True)
         judge_api(emus[ident], m, res)
     res.exhaustive = ("the whole single-fault domain described in `rule` (%d cases), every MAC length 1..7 and every "
-                      "IPv4 prefix length 0..32; random IPv4 addresses are samples" % total_fault)
+                      "IPv4 prefix length 0..32; two-fault sequences: %d of the %d of the domain (all at the thorough tier); "
+                      "random IPv4 addresses are samples" % (total_fault, total_two, domain_two))
     res.extra["driver_lines"] = drv_lines
     res.extra["fault_cases"] = total_fault
     # the Linux psutil of this interpreter must be untouched
